@@ -10,6 +10,7 @@ import GenjaxModel.Model.McmcIO
 import GenjaxModel.Model.SmcIO
 import GenjaxModel.Model.AdevIO
 import GenjaxModel.Model.VmapIO
+import GenjaxModel.Model.DistExprIO
 /-! Line-protocol driver: one S-expression per input line, one per output line. -/
 open Genjax
 
@@ -51,6 +52,9 @@ def dispatch (e : SExp) : SExp :=
   | some r => r
   | none =>
   match stepVmap e with
+  | some r => r
+  | none =>
+  match stepDistSpec e with
   | some r => r
   | none => .list [.atom "bad-op"]
 
